@@ -1,5 +1,6 @@
 # self-validation battery (see runner.py): mutants must be reported under the named rule, neutral rewrites must stay silent
 MUTANTS = [
+    {'name': 'revert: re-strike while the key is still down', 'revert': 're-strike while the key is still down', 'expect': '|SOUND-ge|'},
     {'name': 'track 0 treated as missing', 'file': 'partitura/performance.py', 'old': 'n.get("track", -1)', 'new': '(n.get("track") or -1)', 'expect': '|F11|'},
     {'name': 'setter stops recomputing', 'file': 'partitura/performance.py', 'old': '        self._sustain_pedal_threshold = value\n        if len(self.notes) > 0:\n            adjust_offsets_w_sustain(\n                self.notes, self.controls, self._sustain_pedal_threshold\n            )', 'new': '        self._sustain_pedal_threshold = value', 'expect': 'MUSTCALL'},
     {'name': 'setter recomputes with the default threshold', 'file': 'partitura/performance.py', 'old': '                self.notes, self.controls, self._sustain_pedal_threshold\n', 'new': '                self.notes, self.controls, 64\n', 'expect': 'MUSTCALL'},
